@@ -268,6 +268,9 @@ SEARCH_SPECS = [
     '<start> ::= <rec>{1,3}\n<rec> ::= <n> <item>{int(<n>)} ";"\n<n> ::= "1" | "2" | "3"\n<item> ::= "a" | "b" <item>?\nwhere str(<start>).count("b") >= 2\n',
     '<start> ::= <k> "=" <v>\n<k> ::= <l>+\n<l> ::= "x" | "y" | "z"\n<v> ::= <l>{2,4}\nwhere str(<k>) == str(<v>)\nwhere len(str(<v>)) > 2\n',
     '<start> ::= <e>\n<e> ::= <t> | <t> "+" <e>\n<t> ::= <d> | "(" <e> ")"\n<d> ::= "0" | "1" | "7"\nwhere str(<start>).count("7") >= 2\nwhere forall <x> in <t>: len(str(<x>)) < 9\n',
+    # generator-defined fields: their parsed children are read-only nodes, which the operators have to copy like any other
+    '<start> ::= <tag> ":" <v>{1,4} ";" <sum>\n<tag> ::= <l> <l> := "xy"\n<l> ::= "x" | "y"\n<v> ::= "0" | "1" | "7"\n<sum> ::= <dg> := str(len(str(<tag>)))\n<dg> ::= "1" | "2" | "3"\n'
+    'where str(<start>).count("7") >= 2\nwhere str(<v>) != "0"\n',
 ]
 
 
@@ -281,6 +284,8 @@ def search_traces(rep, seeds):
             evs = record_search(s, spec, tid)
             metas[tid] = {"spec": spec, "seed": s}
             events.extend(evs)
+            if len(evs) < 5:
+                raise common.Machinery("search run of spec %d (seed %d) produced only %d snapshots" % (si, s, len(evs)))
     path = os.path.join(subdir("c10"), "heaptrace.ndjson")
     with open(path, "w") as fh:
         for e in events:
